@@ -45,7 +45,8 @@ func (h *Session) Unmarshal(v base.HeaderValue) error {
 		return err
 	}
 
-	for k, v := range kvs {
+	for _, k := range sortedKeys(kvs) {
+		v := kvs[k]
 		if k == "timeout" {
 			var iv uint64
 			iv, err = strconv.ParseUint(v, 10, 32)
